@@ -3,7 +3,7 @@ package quic
 //vx:pkg github.com/refraction-networking/uquic
 //vx:entry Harness_C09_resolve Harness_C09_split
 //vx:param quick maxspan=6 maxframes=5
-//vx:param thorough maxspan=10 maxframes=8
+//vx:param thorough maxspan=8 maxframes=6
 //vx:reach Harness_C09_resolve C09.resolve.ok C09.resolve.rejected C09.resolve.negative-offset C09.resolve.negative-length
 //vx:reach Harness_C09_split C09.split.one C09.split.many C09.split.clamped
 
